@@ -303,6 +303,7 @@ Lemma agrees_implies_prop_ok_l : forall c,
   agrees_r c = true -> prop_ok_r c = true.
 Proof.
   intros c Hstrict Htab HR Hu Ha. unfold agrees_r in Ha. unfold prop_ok_r.
+  destruct (negb (weights_in_domain (cR c) (cops c))); [reflexivity|].
   destruct (cfinal c).
   - apply andb_true_iff in Ha. destruct Ha as [Hne Hall]. rewrite Hne. cbn [andb].
     apply forallb_forall. intros g Hg. rewrite forallb_forall in Hall. specialize (Hall g Hg).
